@@ -202,7 +202,7 @@ def tie_lines(ctx, b, meta):
 
 HYP_CHECKS = {      # op of JDriver.lean -> (hypotheses it implies by Xrl.C19.hyp_<op>_sound, theorems that ask for them)
     'counts': 'hN.. (counts are ints), hEq NE_Fii = NE_Fi (Fi), h92 no CS_Energy data for Z > 92 (CS_Energy)',
-    'kall':   'KAllOk / KVecOk (Kissel vectors of the occupied sub-shells as long as their counts, Q shells empty), hq of CS(b)_Photo_Partial',
+    'kall':   'KAllOk / KVecOk (Kissel vectors of the occupied sub-shells as long as their counts): CS(b)_Photo_Partial, the cascade helpers, Photo_Total, Total_Kissel, Fluor{Line,Shell}_Kissel*',
     'lgaps':  'LGaps (no gap in the chain L1, L2, L3 of edges): Jump_from_L2/L3, CS(b)_FluorLine/FluorShell, LineEnergy(LB_LINE)',
     'uoccup': 'hlenU, hU (where there are profiles: as many occupation numbers as shells, none negative): ComptonProfile_Partial',
     'aw':     'conclusion of haw (AtomicWeight_arr[Z] > 0): the closed forms CS_*/CSb_*/DCS_*/DCSP_* (W2)',
